@@ -159,3 +159,52 @@ pub fn read_ndjson(path: &str) -> Vec<Value> {
         }))
         .collect()
 }
+
+
+/// Unrelated calls into OTHER parts of the library, results ignored (every one under catch_unwind): made between the
+/// recorded calls of a scenario on the same thread.  Each recorded call must give the specification's result whatever
+/// other functions - failing ones included - ran before it.  Never called between an injection and the call it is for.
+pub fn noise(k: usize) {
+    use wow_srp::normalized_string::NormalizedString as NS;
+    let _ = guard(|| {
+        let salt16 = [k as u8; 16];
+        match k % 9 {
+            0 => { let _ = wow_srp::pin::calculate_hash(12, 5, &salt16, &salt16); let _ = wow_srp::pin::calculate_hash(1234, k as u32, &salt16, &[7u8; 16]); }
+            1 => { let _ = wow_srp::pin::verify_client_pin_hash(999, 1, &salt16, &salt16, &[0u8; 20]); let _ = wow_srp::pin::verify_client_pin_hash(123456, 1, &salt16, &salt16, &[1u8; 20]); }
+            2 => { let _ = wow_srp::integrity::login_integrity_check_generic(&[1, 2, 3, k as u8], &salt16, &[9u8; 32]); let _ = wow_srp::integrity::reconnect_integrity_check(&salt16); }
+            3 => { let _ = NS::new("bad\u{1}name"); let _ = NS::new("waytoolongforanormalizedstring"); let _ = NS::new("ok"); }
+            4 => { let _ = wow_srp::PublicKey::from_le_bytes([0u8; 32]); let _ = wow_srp::PublicKey::from_le_bytes(wow_srp::LARGE_SAFE_PRIME_LITTLE_ENDIAN); let _ = wow_srp::PublicKey::from_le_bytes([k as u8 | 1; 32]); }
+            5 => {
+                let u = NS::new("NOISE").unwrap();
+                let _ = wow_srp::vanilla_header::ProofSeed::new().into_server_header_crypto(&u, [k as u8; 40], [0u8; 20], 1);
+                let (_, mut c) = wow_srp::tbc_header::ProofSeed::new().into_client_header_crypto(&u, [k as u8; 40], 2);
+                let mut d = [1u8, 2, 3, 4, 5, 6, 7];
+                c.encrypt(&mut d);
+                let (_, mut w) = wow_srp::wrath_header::ProofSeed::new().into_client_header_crypto(&u, [3u8; 40], 4);
+                let _ = w.attempt_decrypt_server_header([0xFF, 1, 2, 3]);
+            }
+            6 => {
+                let card = wow_srp::matrix_card::MatrixCard::new(2, 4, 4);
+                let mut v = wow_srp::matrix_card::MatrixCardVerifier::new(2, 4, k as u64, 4, &[5u8; 40]);
+                let _ = v.get_matrix_coordinates(0);
+                let _ = v.get_matrix_coordinates(9);
+                let _ = wow_srp::matrix_card::verify_matrix_card_hash(&card, 2, 7, &[5u8; 40], &[0u8; 20]);
+            }
+            7 => {
+                // a refused login
+                let v = wow_srp::server::SrpVerifier::from_username_and_password(NS::new("NOISE").unwrap(), NS::new("PW").unwrap());
+                let p = v.into_proof();
+                let a = wow_srp::PublicKey::from_le_bytes([0x42u8; 32]).unwrap();
+                let _ = p.into_server(a, [k as u8; 20]);
+            }
+            _ => {
+                let mut n = [0u8; 32];
+                n[0] = 23;
+                let b1 = wow_srp::PublicKey::from_le_bytes({ let mut x = [0u8; 32]; x[0] = 4; x }).unwrap();
+                let c = wow_srp::client::SrpClientChallenge::new(NS::new("NOISE").unwrap(), NS::new("OTHER").unwrap(), 5, n, b1, [1u8; 32]);
+                let _ = c.verify_server_proof([0u8; 20]);
+            }
+        }
+    });
+    crate::util::clear_hooks();
+}
